@@ -257,25 +257,71 @@ func (x *FnCtx) unknownCall(st *State, name string, args []Value, resT types.Typ
 	x.hasUnknownCall = true
 	x.abstracted("call without contract havocs the heap: " + name)
 	x.havocAll(st)
+	x.havocGhosts(st)
 	return x.freshResult(st, name, resT)
 }
 
 func (x *FnCtx) havocAll(st *State) {
 	tb := x.tb
-	for k, s := range x.heapSorts {
+	// every heap map becomes unknown: forget all of them and switch to a fresh family of
+	// lazily created variables (also covers maps this function has not touched yet)
+	keep := map[string]*Term{}
+	for k, t := range st.heap.m {
 		if strings.HasPrefix(k, "B.") {
+			keep[k] = t
+		}
+		if strings.HasPrefix(k, "H.$.") {
+			if g := x.eng.specs.Ghosts["."+strings.TrimPrefix(k, "H.$.")]; g != nil && g.Immutable {
+				keep[k] = t
+			}
+		}
+	}
+	oldBase := st.heap.baseSuffix()
+	st.heap.base = fmt.Sprintf("$h%d", tb.nextID())
+	// immutable / box maps not yet materialised keep their old identity
+	for k := range x.heapSorts {
+		if _, done := keep[k]; done {
 			continue
 		}
-		st.heap.m[k] = tb.Fresh("hv."+k, s)
+		imm := strings.HasPrefix(k, "B.")
+		if strings.HasPrefix(k, "H.$.") {
+			if g := x.eng.specs.Ghosts["."+strings.TrimPrefix(k, "H.$.")]; g != nil && g.Immutable {
+				imm = true
+			}
+		}
+		if imm {
+			keep[k] = tb.Var(k+oldBase, x.heapSorts[k])
+		}
 	}
-	for k, t := range st.ghost {
+	for _, g := range x.eng.specs.Ghosts {
+		if g.Field && g.Immutable {
+			k := "H.$." + g.Name
+			if _, done := keep[k]; !done {
+				ec := &EvalCtx{x: x}
+				if t := ec.typeByName(g.Type); t != nil {
+					s := ArraySort(IntSort, x.sortOf(t))
+					x.heapSorts[k] = s
+					keep[k] = tb.Var(k+oldBase, s)
+				}
+			}
+		}
+	}
+	st.heap.m = keep
+	// package-level variables (G.*) are part of "everything"
+	for k := range st.ghost {
 		if strings.HasPrefix(k, "G.") {
-			st.ghost[k] = tb.Fresh("hv."+k, t.Sort)
+			delete(st.ghost, k)
 		}
 	}
 	a := tb.Fresh("A", IntSort)
 	st.pc = tb.And(st.pc, tb.Le(st.heap.A, a))
 	st.heap.A = a
+}
+
+// havocGhosts forgets every ghost variable (also those not read so far).
+func (x *FnCtx) havocGhosts(st *State) {
+	st.ghost = map[string]*Term{}
+	st.gbase = fmt.Sprintf("$g%d", x.tb.nextID())
 }
 
 // ---------- contracts at call sites ----------
@@ -616,9 +662,7 @@ func (x *FnCtx) havocItems(st *State, items []modItem) {
 		switch it.kind {
 		case "all":
 			x.havocAll(st)
-			for k, t := range st.ghost {
-				st.ghost[k] = x.tb.Fresh("hv."+k, t.Sort)
-			}
+			x.havocGhosts(st)
 		case "field":
 			v := x.freshOf("hv."+it.fi.Name, it.fi.T)
 			x.storeField(st.heap, it.ref, it.fi, v)
@@ -669,6 +713,12 @@ func (x *FnCtx) frameObligations(name string, entry, exit *State, items []modIte
 	for k := range exit.heap.m {
 		names[k] = true
 	}
+	if exit.heap.baseSuffix() != entry.heap.baseSuffix() {
+		// a total havoc happened on the way: every known map may have changed
+		for k := range x.heapSorts {
+			names[k] = true
+		}
+	}
 	for _, k := range sortedKeys(names) {
 		if strings.HasPrefix(k, "B.") {
 			continue
@@ -677,9 +727,12 @@ func (x *FnCtx) frameObligations(name string, entry, exit *State, items []modIte
 		if s == nil {
 			continue
 		}
+		if _, ok := exit.heap.m[k]; !ok {
+			exit.heap.m[k] = tb.Var(k+exit.heap.baseSuffix(), s)
+		}
 		e0, ok := entry.heap.m[k]
 		if !ok {
-			e0 = tb.Var(k+"$0", s)
+			e0 = tb.Var(k+entry.heap.baseSuffix(), s)
 		}
 		e1 := exit.heap.m[k]
 		if e0 == e1 {
@@ -734,11 +787,18 @@ func (x *FnCtx) frameObligations(name string, entry, exit *State, items []modIte
 		x.addOb("modifies", fmt.Sprintf("%s/modifies:%s", name, strings.TrimPrefix(shortKey(k), "H.")), exit, goal, false, "frame of "+k)
 	}
 	// ghost and global state
+	if exit.ghostSuffix() != entry.ghostSuffix() {
+		for gk, gs := range x.ghostSorts {
+			if _, ok := exit.ghost[gk]; !ok {
+				exit.ghost[gk] = tb.Var(gk+exit.ghostSuffix(), gs)
+			}
+		}
+	}
 	for _, k := range sortedKeys(exit.ghost) {
 		e1 := exit.ghost[k]
 		e0, ok := entry.ghost[k]
 		if !ok {
-			e0 = tb.Var(k+"$0", e1.Sort)
+			e0 = tb.Var(k+entry.ghostSuffix(), e1.Sort)
 		}
 		if e0 == e1 {
 			continue
@@ -898,9 +958,7 @@ func (x *FnCtx) enterLoop(fr *Frame, st *State, li *loopInfo, pre **State, decr 
 			h.heap.A = a
 		} else {
 			x.havocAll(h)
-			for k, t := range h.ghost {
-				h.ghost[k] = tb.Fresh("hv."+k, t.Sort)
-			}
+			x.havocGhosts(h)
 		}
 	}
 	// assume invariants
